@@ -65,14 +65,23 @@ def preempt_case(draw, tier):
                 "read": (draw(st.integers(0, 1)) + 0.25) * 20.0 / tps}
 
     arrivals = []
-    for _ in range(draw(st.integers(2, 7))):
-        n = draw(st.integers(2, 6))
-        ops = [{"parents": [i - 1] if i else [], "segs": [seg(2)]} for i in range(n)]
-        arrivals.append([draw(st.integers(0, 2)), {"prio": draw(st.sampled_from([3, 2])), "ops": ops}])
+    full = draw(st.booleans())
+    if full:
+        # exactly enough multi-operator non-query pipelines to occupy every CPU, then query bursts
+        params["cpus_per_pool"] = draw(st.sampled_from([2, 1, 3, 4]))
+        params["num_pools"] = draw(st.sampled_from([1, 2]))
+        nbg = params["cpus_per_pool"] * params["num_pools"] + draw(st.sampled_from([0, 0, 1, 2]))
+    else:
+        nbg = draw(st.integers(2, 7))
+    for _ in range(nbg):
+        n = draw(st.integers(3, 8)) if full else draw(st.integers(2, 6))
+        ops = [{"parents": [i - 1] if i else [], "segs": [seg(1 if full else 2)]} for i in range(n)]
+        arrivals.append([0 if full else draw(st.integers(0, 2)), {"prio": draw(st.sampled_from([3, 2])), "ops": ops}])
+    burst = draw(st.integers(1, 8))
     for _ in range(draw(st.integers(1, 6))):
         n = draw(st.sampled_from([1, 1, 2, 3]))
         ops = [{"parents": [i - 1] if i else [], "segs": [seg(3)]} for i in range(n)]
-        arrivals.append([draw(st.integers(1, 20)), {"prio": 1, "ops": ops}])
+        arrivals.append([burst if draw(st.integers(0, 3)) else draw(st.integers(1, 20)), {"prio": 1, "ops": ops}])
     arrivals.sort(key=lambda a: a[0])
     return {"params": params, "arrivals": arrivals}
 
